@@ -556,6 +556,28 @@ pub fn judge_c16(s: &Scenario, r: &RunResult) -> Vec<String> {
     for vol in &volumes {
         check("volume", vol, &["volume"]);
     }
+    // an image is in use as long as a detached container created from it exists: the image's
+    // removal must come after the removal of every such container
+    let first_removal = |kind: &str, name: &str, sub: &str| -> Option<u64> {
+        r.log
+            .iter()
+            .filter(|e| (removal(e) && e.argv[0] == sub && e.argv.iter().any(|a| a == name)) || e.removed.iter().any(|x| *x == format!("{kind}/{name}")))
+            .map(|e| e.i)
+            .min()
+    };
+    for e in &r.log {
+        if e.prog == "docker" && e.argv.first().map(String::as_str) == Some("run") && e.exit == 0 {
+            if let Ok(d) = parse_docker_run(&e.argv[1..]) {
+                if let (true, Some(name)) = (d.detach, d.name.first()) {
+                    if let (Some(rm), Some(rmi)) = (first_removal("containers", name, "rm"), first_removal("images", &d.image, "rmi")) {
+                        if rmi < rm {
+                            v.push(format!("image {} was removed (command #{rmi}) while container {name} created from it still existed (removed by command #{rm})", d.image));
+                        }
+                    }
+                }
+            }
+        }
+    }
     v
 }
 
